@@ -347,6 +347,59 @@ func Run(r *core.Run) {
 		r.Observe(id)
 		r.Class("builder-lifecycles")
 	})
+	// ---- requests whose delta is exactly as large as the protocol allows: a create and an update built by the client builders, with
+	// service endpoints that carry a query string (& < > U+2028); the configured maximum delta size is the canonical size of the delta
+	for _, typ := range []string{"create", "update"} {
+		typ := typ
+		id := "builders/delta-exactly-at-the-size-limit/" + typ
+		r.Case(id, func() *core.Fail {
+			rec, upd, upd2 := keys.New("P-256", 650), keys.New("P-256", 651), keys.New("P-256", 652)
+			jwkOf := func(k *keys.Key) *jws.JWK { return newSigner(k).PublicKeyJWK() }
+			cm := func(k *keys.Key) string { c, _ := commitment.GetCommitment(jwkOf(k), 18); return c }
+			rv := func(k *keys.Key) string { c, _ := commitment.GetRevealValue(jwkOf(k), 18); return c }
+			svc, _ := patch.NewAddServiceEndpointsPatch(`[{"id":"q1","type":"T","serviceEndpoint":"https://s.example/find?a=1&b=2&c=<3>&d=\u2028e"}]`)
+			creq, err := client.NewCreateRequest(&client.CreateRequestInfo{Patches: []patch.Patch{svc}, RecoveryCommitment: cm(rec), UpdateCommitment: cm(upd), MultihashCode: 18})
+			if err != nil {
+				return &core.Fail{Key: id, What: "create builder refused valid input: " + err.Error()}
+			}
+			req := creq
+			if typ == "update" {
+				suffix := ""
+				if op, err := newWorld([]uint{18}).parser.Parse("did:sidetree", creq); err == nil {
+					suffix = op.UniqueSuffix
+				}
+				req, err = client.NewUpdateRequest(&client.UpdateRequestInfo{DidSuffix: suffix, Patches: []patch.Patch{svc}, UpdateCommitment: cm(upd2), UpdateKey: jwkOf(upd), MultihashCode: 18, Signer: newSigner(upd), RevealValue: rv(upd)})
+				if err != nil {
+					return &core.Fail{Key: id, What: "update builder refused valid input: " + err.Error()}
+				}
+			}
+			var m map[string]any
+			_ = json.Unmarshal(req, &m)
+			size := len(jcs.MustCanonGo(m["delta"]))
+			w := newWorld([]uint{18})
+			w.p.MaxDeltaSize = uint(size)
+			w.parser = operationparser.New(w.p)
+			w.applier = operationapplier.New(w.p, w.parser, doccomposer.New())
+			det := M{"request": string(req), "canonical_delta_size": size}
+			prev := &protocol.ResolutionModel{}
+			if typ == "update" {
+				st, msg := w.accept(creq, operation.TypeCreate, prev, 10)
+				if msg != "" {
+					return &core.Fail{Key: id, What: "create before the update: " + msg, Detail: det}
+				}
+				prev = st
+			}
+			st, msg := w.accept(req, operation.Type(typ), prev, 20)
+			if msg != "" {
+				return &core.Fail{Key: id, What: fmt.Sprintf("%s request whose canonical delta has exactly the maximum delta size (%d): %s", typ, size, msg), Detail: det}
+			}
+			if !strings.Contains(docView(implDoc(st)), "find?a=1&b=2") {
+				return &core.Fail{Key: id, What: "the service of the request is not in the resulting document: " + docView(implDoc(st)), Detail: det}
+			}
+			return nil
+		})
+		r.Observe(id)
+	}
 	// ---- builder refusals
 	{
 		k1, k2 := keys.New("P-256", 620), keys.New("P-256", 621)
